@@ -176,10 +176,10 @@ func hashBytes(kind string, in []byte) ([]byte, error) {
 // Conc concretises the elements of one spend.
 type Conc struct {
 	w       *World
-	scripts map[string][]byte            // "scr" name -> bytes
-	ctrls   map[string][]byte            // "ctrl" element key -> bytes
+	scripts map[string][]byte             // "scr" name -> bytes
+	ctrls   map[string][]byte             // "ctrl" element key -> bytes
 	sigFn   func(e *Elem) ([]byte, error) // signature elements (context dependent)
-	tapKey  []byte                       // x-only output key (key element "TAP")
+	tapKey  []byte                        // x-only output key (key element "TAP")
 }
 
 func (c *Conc) elem(e *Elem) ([]byte, error) {
